@@ -85,6 +85,26 @@ reg('C10', 'rxmc', 'exploration',
     'Structure exhaustive, fills by covering scheme (as C07); family of a code for the rank clause is decided by the patterns themselves.',
     'bounded exhaustive enumeration of the accepted language + all pairs of a canonical subset', 'DESIGN.md 3/C10')
 
+reg('C01', 'grid', 'exploration',
+    'The whole 0.01 grid of every (gender, event) row (about 2.7 million marks, as float and as int where integral, incl. the veterans hurdles aliases and '
+    'the ESAA 800 m option) is scored by the real function and compared with the World Athletics formula evaluated in exact arithmetic (Decimal; the '
+    'power is decided in floating point outside a guard band and with 60-digit Decimal inside it); every age 1..114 on a window of each row and the '
+    'masters bands on the full grid of the rows that have a WMA factor (2 bands quick, all 17 thorough); unknown pairs with and without age.',
+    'Coefficients = decimal text of the table in the source; WMA factors read from the JSON by the check; glibc pow within 1e-9 relative.',
+    'bounded exhaustive enumeration of the input grid against an exact-arithmetic reference model', 'DESIGN.md 2.5, 3/C01')
+reg('C05', 'grid', 'exploration',
+    'Every adjacent pair of marks on the 0.01 grid, for every table/event/gender/age of Tyrving, QuadKids, Sportshall, Bulgarian U16, Hungarian and the '
+    'combined-events tables (with and without age bands), per input form: a better mark never scores less; results are ints within each system\'s bounds; '
+    'Tyrving hand-timed text never scores more than the same figure timed electronically.',
+    'Quick tier strides rows longer than 120 000 marks (stated in the evidence); thorough is the full grid.',
+    'bounded exhaustive enumeration of adjacent input pairs (order relation on the whole grid)', 'DESIGN.md 2.5, 3/C05')
+reg('C11', 'grid', 'exploration',
+    'Every (system, table, event, age) of Tyrving, QuadKids, Sportshall and Bulgarian U16 x every mark of the 0.01 grid from well below to well above the '
+    'tabulated range x every documented input form is scored by the public function and compared with an exact Fraction/Decimal evaluation of the table '
+    'data written from the statement; plus the table clauses (each table ordered, every key a valid event code in normal form and reachable).',
+    'Oracles read the table data (not the scoring code) from the modules; input forms per system as listed in the evidence assumptions.',
+    'bounded exhaustive enumeration of the input grid against exact-arithmetic reference models', 'DESIGN.md 2.5, 3/C11')
+
 ALL = ['C%02d' % i for i in range(1, 20)]
 PENDING_REASON = 'check not yet built in this session (planned, see DESIGN.md section 7); not claimed until it runs clean'
 
